@@ -58,6 +58,7 @@ RULES = {
     "REPLSCOPE": unify.rule_replscope,
     "CALLPRED": unify.rule_callpred,
     "HOLESIB": unify.rule_holesib,
+    "CONDSPEC": unify.rule_condspec,
     "FRONTPIPE": frontend.rule_frontpipe,
     "OBLIG": frontend.rule_oblig,
     "BOUNDFORM": frontend.rule_boundform,
